@@ -482,6 +482,14 @@ def rule_k_field(ctx):
             os_ = op_role(ctx, b, oop)
             none_const = oop["k"] == "const" or (b.source_def(oop) is not None and b.source_def(oop)[1] == "assign" and
                                                   b.source_def(oop)[2]["rv"].get("variant") == "None")
+            if none_const and comp["family"] in ("iter", "into", "drain"):
+                # an iterator over "no old table" is only right where no old table is pending: on the None edge of a test of the map's own
+                # resize state (a caller that ignores the old half today is one refactoring away from losing those elements)
+                from rules_typestate import left_test_edges, N as N_
+                known_unsplit = any(v == N_ and edge_dominates(b, e, loc.bb) for e, v in left_test_edges(ctx, b, ignore_debug=False).items())
+                if not known_unsplit:
+                    none_const = False
+                    os_ = "a literal None although an old table may be pending"
             ok = ms == MAIN and (os_ == OLD or none_const)
             R.inst(fn=b.path, site=b.where(loc), adt=rv["adt"], main_field_from=ms, old_field_from=os_ or ("None" if none_const else None),
                    verdict="ok" if ok else "VIOLATION")
